@@ -197,7 +197,7 @@ def gen_history(rng, length, unsafe=False):
         r = rng.random()
         if r < 0.30:      # derive
             cls = rng.choice(["A", "A", "B"]) if handles(lambda p: p["chunks"] == "B") else "A"
-            cands = handles(lambda p: p["chunks"] == cls and p["depth"] < 9)
+            cands = handles(lambda p: p["chunks"] == cls and p["depth"] < 6)
             if not cands:
                 continue
             n = rng.choice([1, 1, 2, 2, 3])
@@ -209,7 +209,7 @@ def gen_history(rng, length, unsafe=False):
                 pool[s]["deps"] += 1
             pool[L] = dict(lazy=True, chunks=cls, handle=True, deps=0, ret=0, depth=1 + max(pool[s]["depth"] for s in srcs), target=None)
         elif r < 0.35:    # rechunk
-            cands = handles(lambda p: p["depth"] < 9)
+            cands = handles(lambda p: p["depth"] < 6)
             s = rng.choice(cands)
             L = new_label()
             hist.append({"op": "rechunk", "src": s, "id": L})
@@ -570,13 +570,21 @@ class Runner:
                     elif op == "map":
                         L = st["id"]
                         srcs = [self.arrs[s] for s in st["srcs"]]
+                        before = self._snap_all()
                         a = cubed.map_blocks(make_block_fn(st["fn"]), *srcs, dtype="int64")
+                        after = self._snap_all()
+                        if before != after:   # building a new array must not touch the plans of existing ones
+                            self._fail(j, "dag-mutated", "deriving a new array changed the plan of %s" % self._diff(before, after))
                         self.arrs[L] = a
                         self.shadow[L] = fn_apply(st["fn"], [self.shadow[s] for s in st["srcs"]])
                         self._register(L, a)
                     elif op == "rechunk":
                         L = st["id"]
+                        before = self._snap_all()
                         a = self.arrs[st["src"]].rechunk(CHUNKS[self.info[L]["chunks"]])
+                        after = self._snap_all()
+                        if before != after:
+                            self._fail(j, "dag-mutated", "rechunk changed the plan of %s" % self._diff(before, after))
                         self.arrs[L] = a
                         self.shadow[L] = self.shadow[st["src"]].copy()
                         self._register(L, a)
